@@ -239,3 +239,19 @@ Fixpoint sum_upto (n : nat) (g : nat -> nat) : nat :=
 (** inner nodes of all levels + distinct terminal values *)
 Definition canon_size_bdd (n : nat) (f : cfun) : N :=
   N.of_nat (sum_upto n (fun L => level_nodes n L f) + length (dedup Bool.eqb (table 0 n f (fun _ => 0)))).
+
+(** ** The textbook count, BCDD kind: subfunctions up to complement
+
+    A function and its complement share their nodes; the representative is the
+    one that is true on the all-"then" choice (the first table entry). *)
+
+(** complement both cofactor tables unless the first entry of the then-table is true *)
+Definition norm_pair (pr : list bool * list bool) : list bool * list bool :=
+  if hd true (fst pr) then pr else (map negb (fst pr), map negb (snd pr)).
+
+Definition level_nodes_c (n L : nat) (f : cfun) : nat :=
+  length (dedup pair_eqb (map norm_pair (filter essential (subpairs 0 L (n - S L) f (fun _ => 0))))).
+
+(** inner nodes of all levels + the single terminal *)
+Definition canon_size_bcdd (n : nat) (f : cfun) : N :=
+  N.of_nat (sum_upto n (fun L => level_nodes_c n L f) + 1).
